@@ -198,6 +198,19 @@ func (g *Gen) applyCall(ci *callInfo, st *State, r string, pos token.Pos, argOve
 	}
 	if ci.con == nil {
 		g.stats.Uncontracted[ci.key]++
+		// A function that claims termination may not call module code nobody has shown to terminate: a callee
+		// of the module under verification that has no contract and cannot be inlined (it loops or recurses).
+		// Library code stays trusted (its contracts, or the absence of effects, are assumptions listed per run).
+		if g.con != nil && len(g.con.TermProps) > 0 && ci.fn != nil && !ci.dynamic && ci.fn.Pkg != nil &&
+			strings.HasPrefix(ci.fn.Pkg.Pkg.Path(), "github.com/TarsCloud/TarsGo") && len(ci.fn.Blocks) > 0 {
+			var tags []string
+			for t := range g.con.TermProps {
+				tags = append(tags, t)
+			}
+			sort.Strings(tags)
+			g.oblige(g.oblName("call:"+shortKey(ci.key)+"#terminates"), "termination", tags, r, "false",
+				"the callee has no contract and cannot be inlined (it loops or calls itself): nothing shows that it terminates", pos)
+		}
 		g.havocAll(st)
 		res, _ := g.resultVals(ci.sig, st, "ures")
 		g.assumeResultFacts(res, ci.sig, st)
